@@ -359,6 +359,9 @@ def _mk_tile_compressor(
 
 
 def _compress_cog_tile(encoder, block, idx):
+    if not block.dtype.isnative:
+        # tile bytes go into the file as is, and the file is in native byte order
+        block = block.astype(block.dtype.newbyteorder("="))
     return [(encoder(block), idx)]
 
 
